@@ -149,6 +149,22 @@ func (e *Ev) evRegexMethod(x *ast.CallExpr, rv VRegex, name string) Val {
 		fx.trusted["regexp.MatchString(s) <=> dec(s) in L(pattern) (assumed; L computed from regexp/syntax of the real pattern, DESIGN 2.5)"] = true
 		return VBool{"(inlang_" + ln + " " + fx.seqOf(s) + ")"}
 	}
+	if name == "FindStringSubmatch" {
+		s, ok := e.ev(x.Args[0]).(VStr)
+		if !ok {
+			e.unsupp(x, "FindStringSubmatch of non-string")
+		}
+		ln := "re_" + rv.Var
+		fx.prog.registerCodeRegex(ln, rv.Pattern)
+		fx.langsUsed[ln] = true
+		nsub, err := numSubexp(rv.Pattern)
+		if err != nil {
+			e.unsupp(x, "pattern of %s does not parse: %v", rv.Var, err)
+		}
+		fx.trusted["regexp.FindStringSubmatch(s): nil iff no match, else a slice of 1+NumSubexp strings (assumed)"] = true
+		seq := fx.seqOf(s)
+		return VSubmatch{Var: rv.Var, In: seq, Hit: "(inlang_" + ln + " " + seq + ")", N: 1 + nsub}
+	}
 	e.unsupp(x, "regexp method %s is not modelled", name)
 	return nil
 }
